@@ -780,6 +780,30 @@ Definition bintShift (b : bint) (n : Z) : bint :=
         end
   end.
 
+(* ------------------------------------------------------------------ bintShiftRem *)
+(* "Returns lowest n bits from b".  As coded:
+     immediate:  x & ((1 << n) - 1)  with an int mask: C-defined for 0 <= n <= 30 only (1 << 31 overflows int);
+     stored:     r = bintAlloc(n) (pa = ceil(n/32) places, IsNeg = false); r[0..pa-2] = b[0..pa-2];
+                 r[pa-1] = b[pa-1] & ((1 << top) - 1), top = n - 32*(pa-1): C-defined for 1 <= n, top <= 30 and
+                 pa <= Placec(b) (otherwise it reads places b does not have; n = 0 never terminates);
+                 then xintImmedIfCan, which does not drop high-order zero places of three or more places.
+   The model is the code on its C-defined inputs; outside them (guards of FactsShiftRem) it is arbitrary. *)
+Definition bintShiftRem (b : bint) (n : Z) : bint :=
+  match b with
+  | Imm x => IntToBInt (Z.land x (Z.ones n))
+  | Sto _ ds =>
+      let pa := QUO_ROUND_UP n LG in
+      let top := n - LG * (pa - 1) in
+      xintImmedIfCan (Sto false (firstn (Z.to_nat (pa - 1)) ds ++ [Z.land (znth (pa - 1) ds) (Z.ones top)]))
+  end.
+Definition fiBIntShiftRem := bintShiftRem.
+(* the inputs on which the C above is defined *)
+Definition shiftrem_defined (b : bint) (n : Z) : bool :=
+  match b with
+  | Imm _ => (0 <=? n) && (n <=? 30)
+  | Sto _ ds => (1 <=? n) && (n - LG * (QUO_ROUND_UP n LG - 1) <=? 30) && (QUO_ROUND_UP n LG <=? len ds)
+  end.
+
 (* ------------------------------------------------------------------ decimal output *)
 (* sprintf("%ld") *)
 Fixpoint dec_digits (fuel : nat) (u : Z) (acc : list Z) : list Z :=
